@@ -16,8 +16,9 @@ const (
 	c11Cancel        // awaiter ctx cancelled
 	c11ChErr         // error sent on errCh
 	c11ChClosed
-	c11CancelCh // cancelCh fired
-	c11Set0     // +k: SetPromise(pk) was begun (container scenarios), k=1..3
+	c11CancelCh      // cancelCh fired
+	c11Set0          // +k: SetPromise(pk) was begun (container scenarios), k=1..3
+	c11Phase    = 12 // pcontainer-clear: the removal of p1 has completed and the container is quiet
 )
 
 var (
@@ -355,6 +356,55 @@ func init() {
 				vsched.Point()
 				p1.SetResult(10+code, resErrs[code])
 			})
+			vsched.Settle()
+			if n := vsched.CountParked(aLabels[kind]); n > 0 {
+				fail("C11.awaiter-stuck", "container awaiter still parked although the current promise has a result")
+			}
+		},
+	})
+	eng.Register(&eng.Scenario{
+		Name: "pcontainer-clear", Props: []string{"C11"}, ObsNames: stdObs,
+		Doc:   "PromiseContainer holding unresolved p1 with a blocked awaiter (Await / AwaitWithErrCh / AwaitWithCancelCh, choice): SetPromise(nil) or SetPromise(p2 unresolved) (choice); once quiet p1 is resolved: the awaiter must not return the removed promise's result; then container.SetResult / p2.SetResult: the awaiter returns that result",
+		Quick: eng.Bounds{PB: 3}, Thorough: eng.Bounds{PB: 5},
+		Body: func() {
+			bg := context.Background()
+			c := promise.NewPromiseContainer[int]()
+			p1, p2 := promise.NewPromise[int](), promise.NewPromise[int]()
+			vsched.CtrSet(c11Set0+1, 1)
+			c.SetPromise(p1)
+			kind := vsched.Choose(3)
+			withP2 := vsched.Choose(2) == 1
+			code := []int{0, 2}[vsched.Choose(2)]
+			errCh := make(chan error, 1)
+			cancelCh := make(chan struct{})
+			T("A", func() {
+				v, err := doAwait(c, kind, bg, errCh, cancelCh)
+				checkAwait(0, kind, v, err, true)
+				if v/10 == 1 && vsched.Ctr(c11Phase) >= 1 {
+					fail("C11.result-of-removed-promise", "container await returned (%d,%v): the result of a promise that had been removed from the container (and the container was quiet) before it was resolved", v, err)
+				}
+				if v/10 != 1 && (v != 30+code || errCode(err) != int64(code)) {
+					fail("C11.wrong-result", "container await returned (%d,%v) but the current promise was resolved with (%d, code %d)", v, err, 30+code, code)
+				}
+			})
+			if vsched.Choose(2) == 1 {
+				vsched.Settle() // the awaiter is blocked on p1
+			}
+			if withP2 {
+				c.SetPromise(p2)
+			} else {
+				c.SetPromise(nil)
+			}
+			vsched.Settle()
+			vsched.CtrSet(c11Phase, 1)
+			p1.SetResult(11, nil)
+			vsched.Settle()
+			vsched.CtrSet(c11Set0+3, 1)
+			if withP2 {
+				p2.SetResult(30+code, resErrs[code])
+			} else {
+				c.SetResult(30+code, resErrs[code])
+			}
 			vsched.Settle()
 			if n := vsched.CountParked(aLabels[kind]); n > 0 {
 				fail("C11.awaiter-stuck", "container awaiter still parked although the current promise has a result")
